@@ -9,4 +9,6 @@ INVARIANT DoneCount
 INVARIANT Corridor
 INVARIANT MetaTruth
 INVARIANT PercExtremes
+INVARIANT MeasureNat
+PROPERTY Terminates
 CHECK_DEADLOCK FALSE
